@@ -33,6 +33,9 @@ impl<'tcx> Cx<'tcx> {
             Res::Def(kind, did) => {
                 attrs.push(a("rk", J::Str(format!("{:?}", kind))));
                 attrs.push(a("res", J::Str(def_path(self.tcx, did))));
+                if matches!(kind, DefKind::AssocFn | DefKind::AssocConst { .. }) {
+                    self.owner_attr(did, attrs);
+                }
                 // for enum variant ctors: also the variant/adt
                 match kind {
                     DefKind::Ctor(..) => {
@@ -52,8 +55,28 @@ impl<'tcx> Cx<'tcx> {
         }
     }
 
+    /// owner of an associated item: the trait it is declared in, or the self type of its inherent impl
+    fn owner_attr(&self, did: rustc_hir::def_id::DefId, attrs: &mut Vec<(String, J)>) {
+        if let Some(parent) = self.tcx.opt_parent(did) {
+            match self.tcx.def_kind(parent) {
+                DefKind::Trait => attrs.push(a("owner", J::Str(format!("trait:{}", def_path(self.tcx, parent))))),
+                DefKind::Impl { of_trait } => {
+                    if of_trait {
+                        let tr = self.tcx.impl_trait_ref(parent).instantiate_identity().skip_norm_wip();
+                        attrs.push(a("owner", J::Str(format!("trait:{}", def_path(self.tcx, tr.def_id)))));
+                    } else {
+                        let st = self.tcx.type_of(parent).instantiate_identity().skip_norm_wip();
+                        attrs.push(a("owner", J::Str(format!("type:{}", st))));
+                    }
+                }
+                _ => {}
+            }
+        }
+    }
+
     fn resolve_call(&self, did: rustc_hir::def_id::DefId, args: ty::GenericArgsRef<'tcx>, attrs: &mut Vec<(String, J)>) {
         attrs.push(a("fn", J::Str(def_path(self.tcx, did))));
+        self.owner_attr(did, attrs);
         attrs.push(a("gargs", J::Arr(args.iter().map(|x| J::Str(format!("{}", x))).collect())));
         if args.len() != self.tcx.generics_of(did).count() {
             return;
